@@ -245,6 +245,8 @@ class CircuitCompositeOperation(ICircuitCompositeOperation):
         if link is not self.relation:
             invalidate_start_time_memo()
         self.relation = link
+        # Hand relation down right away (not only while listing), nested operations are reachable through other handles
+        self.hand_down_relation_link()
 
     @property
     def start_time(self) -> float:
@@ -305,8 +307,19 @@ class CircuitCompositeOperation(ICircuitCompositeOperation):
             graph=self._circuit_graph,
             operation=operation,
         )
+        # Operation without own relation starts with this composite-operation (Important for nested composite-operations)
+        if self.has_relation and not operation.has_relation:
+            inherit_relation_link(operation, self.relation_link)
         invalidate_start_time_memo()
         return self
+
+    def hand_down_relation_link(self) -> None:
+        """Hands relation link of self to all operations of self without own relation."""
+        if not self.has_relation:
+            return
+        for node in self._circuit_graph.get_node_iterator():
+            if not node.operation.has_relation:
+                inherit_relation_link(node.operation, self.relation_link)
 
     def copy(self, relation_transfer_lookup: Optional[Dict[ICircuitOperation, ICircuitOperation]] = None) -> 'CircuitCompositeOperation':
         """
